@@ -161,14 +161,16 @@ def text_of(htmltext):
     return "".join(p.out)
 
 
-HEAD_PLUGINS = ["strikethrough", "mark", "insert", "superscript", "subscript", "math", "ruby", "spoiler"]
+HEAD_PLUGINS = ["strikethrough", "mark", "insert", "superscript", "subscript", "math", "ruby", "spoiler", "abbr"]
 HEAD_TEXTS = ["alpha", "beta *em* gamma", "`code` here", "a **strong** b", "x &amp; y", "[link](http://u.v) z", "tail <b>raw</b> t",
               "q < r", "plain words here", "![img](i.png) cap", "one\\*two", "e ~~s~~ f", "",
               "c <!-- x > y --> d", "<!-- a --> b <i>c</i>", "e <!-- --> f <!-- > -->", "x <a href=\"u\">l</a> y", "<span class=\"k\">s</span> t <!-- <b> -->", "[l](/u \"a>b\") m", "![a > b](/i.png) n",
               "[foo][bar] and [baz]", "see [baz] x", "Release notes  \nVersion two", "line one\\\nline two", "soft\nbreak", "a  \nb  \nc", "==Breaking== changes", "H~2~O and x^2^", "a ^^ins^^ b", "$e=mc$ q", "[ruby(rt)] r", ">!sp!< s", "plain = sign", "1 + 1 = 2", "<span title=\"a>b\">x</span> y", "foo <!-- a >\n b --> bar", "<i data-x='>'>k</i> l",
               # attribute values that hold the other kind of quote (apostrophes in alt texts and titles, quotes inside single-quoted values)
               "Logo ![Bob's photo](p.png) cap", "[docs](/d \"User's guide\") m", "[d](/d 'say \"hi\"') n", "<span title=\"it's\">x</span> y", "<i data-x='a\"b'>k</i> l", "![say \"cheese\"](c.png) o",
-              "![a'b\"c](x.png) p", "[it's](/u) q 'r'", "<b class=x title=it's>u</b> v", "<a href=\"u\" title='w\"x' data-y=\"z'\">l</a> m"]
+              "![a'b\"c](x.png) p",
+              # abbreviations (defined at the end of every document) after an escape or an unmatched delimiter in the same heading
+              "C\\# bindings for the HTML parser", "a [ b HTML c", "x * the W3C y", "HTML", "pre\\*HTML\\* post", "`c` HTML <b>W3C</b>", "[it's](/u) q 'r'", "<b class=x title=it's>u</b> v", "<a href=\"u\" title='w\"x' data-y=\"z'\">l</a> m"]
 
 
 def heading_doc(rng):
@@ -190,7 +192,7 @@ def heading_doc(rng):
         else:
             lines.append("para " + txt)
         lines.append("")
-    return "\n".join(lines) + "\n[bar]: /u\n[baz]: /v 'T'\n"
+    return "\n".join(lines) + "\n[bar]: /u\n[baz]: /v 'T'\n\n*[HTML]: Hyper Text\n*[W3C]: Consortium\n"
 
 
 def expected_items(doc, lo, hi, all_ids=False, escape=True):
@@ -260,9 +262,13 @@ def directive_part(ctx, n_docs):
             ranges.append((lo, hi))
             if fenced:
                 sp1, sp2 = ctx.rng.choice([" ", " ", "", "  "]), ctx.rng.choice([" ", " ", "", "\t"])       # the blank after ":name:" is optional
-                head = "```{toc} Contents\n:min-level:%s%d\n:max-level:%s%d\n```\n\n" % (sp1, lo, sp2, hi)
+                gap = ctx.rng.choice(["", "", "\n", "\n\n"])          # option lines may be separated by empty lines
+                pre_opt = ctx.rng.choice(["", "", ":collapse:\n", ":collapse:\n\n"])
+                head = "```{toc} Contents\n%s:min-level:%s%d\n%s:max-level:%s%d\n```\n\n" % (pre_opt, sp1, lo, gap, sp2, hi)
             else:
-                head = ".. toc:: Contents\n   :min-level: %d\n   :max-level: %d\n\n" % (lo, hi)
+                gap = ctx.rng.choice(["", "", "\n", "\n\n"])
+                pre_opt = ctx.rng.choice(["", "", "   :collapse:\n", "   :collapse:\n\n"])
+                head = ".. toc:: Contents\n%s   :min-level: %d\n%s   :max-level: %d\n\n" % (pre_opt, lo, gap, hi)
             if ctx.rng.random() < 0.6:
                 parts.insert(0, head)
                 ranges.insert(0, ranges.pop())
